@@ -3,6 +3,7 @@
 #include "recorder.h"
 #include <potassco/smodels.h>
 #include <sstream>
+#include <cstdlib>
 using namespace hv;
 namespace {
 std::string run_sw(const Args& a) {
@@ -16,13 +17,20 @@ std::string run_sw(const Args& a) {
 int g_line = 0, g_calls = 0;
 int onError(int line, const char*) { g_line = line; ++g_calls; return 1; }
 std::string run_sr(const Args& a) {
-	if (a.size() != 2) return "bad-op";
+	if (a.size() != 2 && a.size() != 3) return "bad-op";
 	std::istringstream in(unhex(a[1]));
 	Recorder rec;
 	g_line = 0; g_calls = 0;
 	Potassco::SmodelsInput::Options opts;
 	if (a[0] == "1") opts.enableClaspExt();
-	int rc = Potassco::readSmodels(in, rec, &onError, opts);
+	int rc;
+	if (a.size() == 3) {
+		// `sr <ext> <hex> <maxVar>`: the reader's atom limit lowered with setMaxVar
+		Potassco::SmodelsInput reader(rec, opts);
+		reader.setMaxVar((unsigned)std::atoll(a[2].c_str()));
+		rc = Potassco::readProgram(in, reader, &onError);
+	}
+	else rc = Potassco::readSmodels(in, rec, &onError, opts);
 	rec.log.push_back(rc != 0 || g_calls ? "ERR:" + str(g_line) + ":" + str(g_calls) : std::string("OK"));
 	return join(rec.log);
 }
